@@ -152,6 +152,13 @@ def enc_machinery_error(x):
 class Holder:
     exc = None
     before = ()
+    runs = 0        # how often the raising remote code ran during the current case
+
+
+class _Inner(object):
+    """what the server object delegates unknown names to"""
+    prop = "inner-prop"
+    label = "inner-label"
 
 
 def _target_class(H):
@@ -159,19 +166,29 @@ def _target_class(H):
 
     @server.expose
     class Target(object):
+        """a delegating wrapper: names it does not define itself are looked up on an inner object"""
+        _inner = _Inner()
+
+        def __getattr__(self, name):
+            return getattr(self._inner, name)
+
         def boom(self):
+            H.runs += 1
             raise H.exc
 
         @server.callback
         def boom_cb(self):
+            H.runs += 1
             raise H.exc
 
         @property
         def prop(self):
+            H.runs += 1
             raise H.exc
 
         @prop.setter
         def prop(self, value):
+            H.runs += 1
             raise H.exc
 
         def ok(self, x):
